@@ -531,6 +531,26 @@ def _mof_escaped(strvalue):
     return escaped_str
 
 
+def _mof_safe_split_pos(value, split_pos):
+    """
+    Return the largest position <= split_pos after which the MOF-escaped
+    string `value` can be split without cutting an escape sequence
+    (backslash + one character, or backslash + 'x' + four hex digits as
+    generated by _mof_escaped()). If the first escape sequence does not fit,
+    it is kept whole so that the caller makes progress.
+    """
+    i = 0
+    while i <= split_pos and i < len(value):
+        if value[i] == '\\':
+            n = 6 if value[i + 1:i + 2] == 'x' else 2
+            if i + n - 1 > split_pos:
+                return i - 1 if i > 0 else i + n - 1
+            i += n
+        else:
+            i += 1
+    return split_pos
+
+
 def mofstr(value, indent=MOF_INDENT, maxline=MAX_MOF_LINE, line_pos=0,
            end_space=0, avoid_splits=False, quote_char='"'):
     """
@@ -633,8 +653,9 @@ def mofstr(value, indent=MOF_INDENT, maxline=MAX_MOF_LINE, line_pos=0,
         # Split the string and output the next part
         split_pos = value.rfind(' ', 0, avl_len)
         if split_pos < 0:
-            # We have to split within a word
-            split_pos = avl_len - 1
+            # We have to split within a word, but never inside an escape
+            # sequence (the parts are separate MOF string literals)
+            split_pos = _mof_safe_split_pos(value, avl_len - 1)
         part_value = value[0:split_pos + 1]
         value = value[split_pos + 1:]
         mof.append(quote_char)
